@@ -29,7 +29,7 @@ GenNextBody ==
   /\ nsteps' = nsteps + 1
   /\ \/ \E n \in {1, 2} : AWrite(n) /\ H(<<"write", S, SID, n>>)
      \/ AShutdown /\ H(<<"shutdown", S, SID>>)
-     \/ \E cap \in {4, 5, 1200} : GPack(cap) /\ H(<<"pack", S, cap>>)
+     \/ \E cap \in {1200} : GPack(cap) /\ H(<<"pack", S, cap>>)      \* the code packs nothing below 25 bytes of room and everything above: frames are split by interleaving writes and packs
      \/ \E i \in 1..MaxNet : ADeliver(i) /\ H(<<"deliver", S, i - 1>>)
      \/ \E i \in 1..MaxNet : ALose(i) /\ H(<<"lose", S, i - 1>>)
      \/ \E i \in 1..MaxNet : AAck(i) /\ H(<<"ack", S, DeliveredBefore(i)>>)
